@@ -210,7 +210,7 @@ Lemma add_sub_rows (u : list R) : forall v, length u = length v ->
   map2 (apply_bop opsR Sub) (map2 (apply_bop opsR Add) u v) v = u.
 Proof.
   induction u as [|x u IH]; intros [|y v] H; simpl in *; try discriminate; try reflexivity.
-  rewrite IH by lia. rewrite apply_addR, apply_subR. f_equal. lra.
+  rewrite IH by lia. f_equal. lra.
 Qed.
 Lemma add_sub_vals (U : list (list R)) : forall V, Forall2 (fun r s => length r = length s) U V ->
   map2 (map2 (apply_bop opsR Sub)) (map2 (map2 (apply_bop opsR Add)) U V) V = U.
@@ -254,9 +254,9 @@ Proof.
   - rewrite combine_values by exact K'. rewrite Vr. apply map2_comm. intros u v. apply map2_comm. exact Hf.
 Qed.
 Theorem add_comm (a b r : fd R) : binop opsR Add a b = Res r -> binop opsR Add b a = Res r.
-Proof. apply binop_comm_gen. intros x y. rewrite !apply_addR. lra. Qed.
+Proof. apply binop_comm_gen. intros x y. cbn [apply_bop oadd opsR]. lra. Qed.
 Theorem mul_comm (a b r : fd R) : binop opsR Mul a b = Res r -> binop opsR Mul b a = Res r.
-Proof. apply binop_comm_gen. intros x y. rewrite !apply_mulR. lra. Qed.
+Proof. apply binop_comm_gen. intros x y. cbn [apply_bop omul opsR]. lra. Qed.
 
 (* c*(a+b) = c*a + c*b   (c*x is x.__rmul__(c) = x*c) *)
 Theorem scalar_distributes (a b s : fd R) c : binop opsR Add a b = Res s ->
@@ -279,7 +279,7 @@ Proof.
   - rewrite combine_sampling by assumption. unfold a'. rewrite !scalar_sampling. congruence.
   - rewrite combine_values by exact K'. unfold a', b'. rewrite !scalar_values, Vs.
     apply map2_map_distr. intros u v. apply map2_map_distr. intros x y.
-    rewrite !apply_addR, !apply_mulR. lra.
+    cbn [apply_bop oadd omul opsR]. lra.
 Qed.
 
 (* --- equality --- *)
@@ -311,6 +311,9 @@ Proof.
   replace (x - x) with 0 by lra. rewrite Rabs_R0. pose proof (Rabs_pos x). nra.
 Qed.
 
+Lemma Forall2_len {A B} (P : A -> B -> Prop) l m : Forall2 P l m -> length l = length m.
+Proof. induction 1; simpl; congruence. Qed.
+
 (* different shapes, different grids, different kinds compare unequal (no exception) *)
 Theorem eqb_false_cases rtol atol (a b : fd R) :
   (same_kind a b = false \/ sampling a <> sampling b \/ n_obs a <> n_obs b \/ ~ shape_eq a b) ->
@@ -321,9 +324,9 @@ Proof.
   destruct H as [H|[H|[H|H]]].
   - congruence.
   - contradiction.
-  - apply H. rewrite !n_obs_values. eapply Forall2_length; eauto.
+  - apply H. rewrite !n_obs_values. eapply Forall2_len; eauto.
   - apply H. unfold shape_eq. unfold values_close in V.
-    induction V as [|u v U W Huv _ IH]; constructor; [eapply Forall2_length; eauto|exact IH].
+    induction V as [|u v U W Huv _ IH]; constructor; [eapply Forall2_len; eauto|exact IH].
 Qed.
 
 (* --- membership and removal --- *)
